@@ -31,9 +31,13 @@ INJECT = ["@", "`", "\\", "/*", "//", "'", '"', "#define X 1\n", "#include <x.h>
           "\xa0", "\x1c", "\x1f", "\x85", "\u2028", "\u2029", "\u3000", "\u2003", "\u1680", "\r", "\x00", "\ufeff", "\u200b"]
 
 
+ALT_SPELLINGS = {"<:": "[", ":>": "]", "<%": "{", "%>": "}", "??(": "[", "??)": "]", "??<": "{", "??>": "}"}
+
+
 def balanced(tokens):
     st = []
     for t in tokens:
+        t = ALT_SPELLINGS.get(t, t)
         if t in ("(", "[", "{"):
             st.append(t)
         elif t in PAIR:
@@ -94,6 +98,11 @@ def bracket_mutants(toks):
         for o in BR:
             if o != t and ((o in PAIR) == (t in PAIR) or True):
                 yield (f"swap->{o}", i, toks[:i] + [o] + toks[i + 1:])
+        # alternative spellings of the OTHER brackets (ISO 646 digraphs, trigraphs): whether or not an implementation
+        # knows them, a bracket replaced by the spelling of a different bracket leaves the nesting broken
+        for alt, means in ALT_SPELLINGS.items():
+            if means != t:
+                yield (f"swap->{alt}", i, toks[:i] + [alt] + toks[i + 1:])
 
 
 def render(toks, directive_idx):
